@@ -6,7 +6,9 @@ mod c02;
 mod c03;
 mod c09;
 mod c10;
+mod cscript;
 mod hist;
+mod kern;
 mod plat;
 mod run;
 mod xcheck;
@@ -31,7 +33,13 @@ fn main() {
         "c02" => (c02::run(&args), c02::RULE),
         "c03" => (c03::run(&args), c03::RULE),
         "c09" => (c09::run(&args), c09::RULE),
+        "kern" => (kern::run(&args), kern::RULE),
+        "probes" => (kern::probes(&args), kern::RULE),
         "c10" => (c10::run(&args), c10::RULE),
+        "gen-cscript" => {
+            cscript::run(&args);
+            return;
+        }
         "xcheck" => {
             xcheck::run(&args);
             return;
